@@ -1,5 +1,6 @@
 import PgBifrost.Proofs.ClientC07
 import PgBifrost.Proofs.ClientTimer
+import PgBifrost.Gen.ClientSrc
 /-!
 # C18 — standby status updates keep flowing  (partial: timers are modelled)
 
@@ -66,5 +67,21 @@ example : gapsLe (10 + 5) (0 :: ((runT 10 (init 10) [⟨5, false, 0⟩, ⟨5, fa
   status_gap_bounded (by decide) _ (by decide)
 /-- the bound is attained up to one unit: receive started just before a firing and ran into the timeout -/
 example : (runT 10 (init 10) [⟨5, false, 0⟩, ⟨4, false, 0⟩, ⟨5, false, 0⟩]).2 = [14] := by decide
+
+/-- `handlePrimaryKeepaliveMessage`, translated statement by statement from the source on this run, is the model's
+keepalive arm of `handleMsg`: nothing is done unless the server asked for a reply; then a status update is forced
+FIRST (`handleProgress(true)`), and only after it the rapid-heartbeat accounting runs (delta and counter updated,
+error when more than 5 requests came within 100 ms, reset when the counter passes 5). Same outcome, same actions,
+and the same state whenever the client goes on. -/
+theorem keepalive_as_in_source (v : Variant) (s : State) (reply : Bool) (w e : Nat) :
+    (PgBifrost.Gen.ClientSrc.keepalive s reply e).2 = (handleMsg v s (.keepalive reply w e)).2 ∧
+    (PgBifrost.Gen.ClientSrc.keepalive s reply e).1.2 = (handleMsg v s (.keepalive reply w e)).1.2 ∧
+    ((PgBifrost.Gen.ClientSrc.keepalive s reply e).2 = none →
+      (PgBifrost.Gen.ClientSrc.keepalive s reply e).1.1 = (handleMsg v s (.keepalive reply w e)).1.1) := by
+  unfold PgBifrost.Gen.ClientSrc.keepalive handleMsg heartbeat hbSet hbLimitNs
+  cases reply
+  · simp [Id.run, pure]
+  · simp only [Id.run, pure, bind]
+    by_cases h1 : s.hbDelta + e < 100000000 <;> by_cases h2 : 5 < s.hbCount + 1 <;> simp [h1, h2]
 
 end PgBifrost.Props.C18
